@@ -26,14 +26,19 @@ type recWriter struct {
 func newRecWriter(ip string) *recWriter {
 	return &recWriter{remote: &net.UDPAddr{IP: net.ParseIP(ip), Port: 40000}, local: &net.UDPAddr{IP: net.ParseIP("127.0.0.1"), Port: 53}}
 }
-func (w *recWriter) LocalAddr() net.Addr         { return w.local }
-func (w *recWriter) RemoteAddr() net.Addr        { return w.remote }
-func (w *recWriter) WriteMsg(m *dns.Msg) error   { w.msgs = append(w.msgs, m.Copy()); return nil }
-func (w *recWriter) Write(b []byte) (int, error) { m := new(dns.Msg); _ = m.Unpack(b); w.msgs = append(w.msgs, m); return len(b), nil }
-func (w *recWriter) Close() error                { return nil }
-func (w *recWriter) TsigStatus() error           { return nil }
-func (w *recWriter) TsigTimersOnly(bool)         {}
-func (w *recWriter) Hijack()                     {}
+func (w *recWriter) LocalAddr() net.Addr       { return w.local }
+func (w *recWriter) RemoteAddr() net.Addr      { return w.remote }
+func (w *recWriter) WriteMsg(m *dns.Msg) error { w.msgs = append(w.msgs, m.Copy()); return nil }
+func (w *recWriter) Write(b []byte) (int, error) {
+	m := new(dns.Msg)
+	_ = m.Unpack(b)
+	w.msgs = append(w.msgs, m)
+	return len(b), nil
+}
+func (w *recWriter) Close() error        { return nil }
+func (w *recWriter) TsigStatus() error   { return nil }
+func (w *recWriter) TsigTimersOnly(bool) {}
+func (w *recWriter) Hijack()             {}
 
 func TestSrvSanity(t *testing.T) {
 	if os.Getenv("VERIF_SANITY") == "" {
